@@ -4,7 +4,7 @@
 # change and passes without; 4. which checks report a violation. Writes /verif/seeded/<seed-name>/ (patch.diff, demo, meta.json, result.txt).
 set -u
 wt="$1"; name="$2"
-export GOFLAGS=-mod=mod GOPROXY=off
+export GOFLAGS="-mod=mod -trimpath" GOPROXY=off
 out=/verif/seeded/$name; mkdir -p "$out"
 T=$(mktemp -d "${TMPDIR:-/tmp}/emcheck-seed-XXXXXX"); trap 'rm -rf "$T"' EXIT
 mkdir -p "$T/with" "$T/without" "$T/verif"
